@@ -233,7 +233,25 @@ def replay_thread(prop, result, fresh, wd, info):
     return False
 
 
-HOOKS = {'thread': replay_thread, 'localeinfo': replay_localeinfo, 'resource': replay_resource, 'ringbuffer': replay_ringbuffer, 'array': replay_array, 'arrayb': replay_array}
+def replay_threadpool(prop, result, fresh, wd, info):
+    exe = os.path.join(wd, 'tp_replay')
+    cmd = ['g++', '-std=c++20', '-g', '-O0', '-Wno-volatile', '-isystem', os.path.join(ROOT, 'replay', 'shim'), '-I', os.path.join(REPO, 'include'),
+           '-I', REPO, os.path.join(ROOT, 'replay', 'tp_replay.cpp'), '-o', exe, '-lpthread']
+    rc, out = _run(cmd, timeout=600)
+    if rc != 0:
+        info['native'] = 'replay driver does not build against the current tree: ' + out[-1500:]
+        return False
+    for attempt in range(2):
+        rc, o = _run(['timeout', '40', exe], timeout=60)
+        if 'CONFIRMED' in o:
+            info['native'] = {'schedule': 'worker held between its predicate check and its wait while stop() runs (shim condition_variable hook)',
+                              'outcome': 'CONFIRMED', 'output': o.strip()[-300:]}
+            return True
+    info['native'] = {'outcome': 'NOT-REPRODUCED', 'tried': 'stop() racing with a worker in the check-then-block window'}
+    return False
+
+
+HOOKS = {'threadpool': replay_threadpool, 'thread': replay_thread, 'localeinfo': replay_localeinfo, 'resource': replay_resource, 'ringbuffer': replay_ringbuffer, 'array': replay_array, 'arrayb': replay_array}
 
 
 def make_replay(prop, result, fresh, wd, tier):
